@@ -4,6 +4,7 @@
 import Gmars.Model.Load
 import Gmars.Spec.LoadText
 import Gmars.Proofs.RoundTrip
+import Gmars.Proofs.AsmPrint
 
 namespace Gmars.Props.C09
 open Gmars
@@ -60,11 +61,28 @@ theorem load_print_large_start (cfg : Config) (code : List Instr) (start : Nat)
     parseLoadFile cfg (Spec.printLoad false code start) = .ok none :=
   RoundTrip.load_print_large_start cfg code start h94 hs
 
+/-- `asm_print` — the assembler half: for every well-formed warrior (every instruction form legal
+    in the dialect, fields and entry point below 2^31 and below the core size, no longer than the
+    maximum length), in both dialects, the canonical load-file text ASSEMBLES to exactly the same
+    instructions and entry point (for every byte string that decodes to that text) -/
+theorem asm_print (cfg : Config) (code : List Instr) (start : Nat)
+    (hv : cfg.validate = true) (hM : cfg.coreSize.toNat < 2 ^ 63)
+    (hf : ∀ i ∈ code, i.a.toNat < cfg.coreSize.toNat ∧ i.b.toNat < cfg.coreSize.toNat)
+    (h31 : ∀ i ∈ code, i.a.toNat < 2 ^ 31 ∧ i.b.toNat < 2 ^ 31) (hs31 : start < 2 ^ 31)
+    (hstart : start < code.length) (hlen : code.length ≤ cfg.length.toNat)
+    (hl : (cfg.mode == .icws88) = true → ∀ i ∈ code, Spec.Legal88 i = true)
+    (src : List UInt8) (hsrc : decodeRunes src = Spec.printLoad (cfg.mode == .icws88) code start) :
+    assemble cfg src =
+      .ok { name := "", author := "", strategy := "", code := code.toArray, start := (start : Int) } :=
+  AsmPrint.asm_print cfg code start hv hM hf h31 hs31 hstart hlen hl src hsrc
+
 /-
-  Still open (tie only): the assembler half `asm_print` (CompileWarrior on the same text) and the
-  remaining layout perturbations of the property (letter case, comment and blank lines, metadata
-  comments, missing final newline) — covered on every run by the `load` correspondence domain,
-  which feeds each generated text to both the loader and the assembler.
+  The 2^31 bound on fields is tight for the assembler (operands are 32-bit expressions:
+  `AsmPrint.asm_print_big`); the loader has no such bound on fields. Still tie only: letter case,
+  comment and blank lines, metadata comments and a missing final newline as perturbations of the
+  LOAD-FILE text (`load_print_any_blanks` covers blanks/tabs/CR for the loader;
+  `Props.C03.assemble_meaning_partial` covers spacing, blank and comment lines for the assembler) —
+  checked on every run by the `load` domain, which feeds each text to both readers.
 -/
 
 end Gmars.Props.C09
